@@ -37,8 +37,18 @@ fn generate(rng: &mut Rng) -> C16Sc {
         _ => Some((rng.chance(1, 2), true)),
     };
     let limiter = if rng.chance(1, 2) { Some((secs(8), 3usize)) } else { None };
-    let nhmax = if rng.chance(1, 4) { 20 } else { 5 };
+    let nhmax = match rng.below(16) {
+        0 => 64,
+        1..=3 => 20,
+        _ => 5,
+    };
     let nh = rng.range(1, nhmax);
+    // deployments behind a load balancer: every client (the victim too) arrives from the same one or two peers
+    let lb_mode = proxy.is_some() && rng.chance(1, 2);
+    // a crowd that misbehaves in the same way (rather than a mix)
+    let same_kind = if rng.chance(1, 3) { Some(rng.below(8)) } else { None };
+    // the listener has been up for a while when all this happens
+    let uptime = *rng.pick(&[0u64, 0, 0, secs(6 * 3600 - 3), secs(86_400), secs(49 * 86_400 + 61_367)]);
     let mut clients = vec![];
     let mut kinds = vec![];
     // hostile clients may come from one or two addresses only, so that the limiter refuses some of them
@@ -46,14 +56,14 @@ fn generate(rng: &mut Rng) -> C16Sc {
     let shared_ip = limiter.is_some() && rng.chance(1, 2);
     for i in 0..nh {
         let (a, b) = if shared_ip { (0, 1 + i % 2) } else { (i / 200, 1 + i % 200) };
-        let peer: SocketAddr = format!("10.66.{a}.{b}:{}", 21_000 + i).parse().unwrap();
+        let peer: SocketAddr = if lb_mode { format!("10.88.0.{}:{}", 1 + i % 2, 21_000 + i).parse().unwrap() } else { format!("10.66.{a}.{b}:{}", 21_000 + i).parse().unwrap() };
         let src: SocketAddr = format!("198.18.{a}.{b}:{}", 31_000 + i).parse().unwrap();
         let intent = *rng.pick(&[1, 2, 2, 3]);
         let mut spec = ClientSpec::base(rng, intent);
         with_header(rng, &mut spec, proxy, &src);
         let plen = spec.preamble.as_ref().map(|p| p.len() as u64).unwrap_or(0);
         let mut wplan = vec![];
-        let kind = match rng.below(8) {
+        let kind = match same_kind.unwrap_or_else(|| rng.below(8)) {
             0 if plen > 0 => {
                 // nothing at all: stalls before the header
                 spec.preamble = None;
@@ -97,17 +107,17 @@ fn generate(rng: &mut Rng) -> C16Sc {
         };
         spec.close_on_end_ns = None;
         spec.coalesce = rng.chance(1, 2);
-        clients.push(NetClient { connect_at_ns: ms(rng.range(0, 5000)), peer: peer.to_string(), spec, wplan });
+        clients.push(NetClient { connect_at_ns: uptime + ms(rng.range(0, 5000)), peer: peer.to_string(), spec, wplan });
         kinds.push(kind.to_string());
     }
     // the victim: own IP, connects at a random instant, does a status exchange or a full login
-    let vpeer: SocketAddr = "10.77.0.1:45000".parse().unwrap();
+    let vpeer: SocketAddr = if lb_mode { "10.88.0.1:45000".parse().unwrap() } else { "10.77.0.1:45000".parse().unwrap() };
     let vsrc: SocketAddr = "203.0.113.200:46000".parse().unwrap();
     let vint = if rng.chance(1, 3) { 2 } else { 1 };
     let mut vspec = ClientSpec::base(rng, vint);
     with_header(rng, &mut vspec, proxy, &vsrc);
     vspec.coalesce = rng.chance(1, 2);
-    clients.push(NetClient { connect_at_ns: ms(rng.range(0, 8000)), peer: vpeer.to_string(), spec: vspec, wplan: vec![] });
+    clients.push(NetClient { connect_at_ns: uptime + ms(rng.range(0, 8000)), peer: vpeer.to_string(), spec: vspec, wplan: vec![] });
     clients.sort_by_key(|c| c.connect_at_ns);
     // keep the victim last in the list for the oracle (stable: move it)
     let vi = clients.iter().position(|c| c.peer == vpeer.to_string()).unwrap();
@@ -137,7 +147,7 @@ fn generate(rng: &mut Rng) -> C16Sc {
             clients,
             stop_at_ns: None,
             stop_before: false,
-            cap_ns: secs(700),
+            cap_ns: uptime + secs(700),
         },
         hostile_kinds: kinds,
     }
@@ -214,7 +224,7 @@ impl Check for C16 {
             return RunReport::default();
         }
         let n = sc.net.clients.len();
-        if n == 0 || sc.net.cfg.use_start || sc.net.stop_at_ns.is_some() || sc.net.cap_ns < secs(60) || sc.net.cfg.timeout_ns < secs(10) {
+        if n == 0 || sc.net.cfg.use_start || sc.net.stop_at_ns.is_some() || sc.net.cap_ns < sc.net.clients[n - 1].connect_at_ns + secs(60) || sc.net.cfg.timeout_ns < secs(10) {
             return RunReport::default();
         }
         let v = &sc.net.clients[n - 1];
@@ -225,7 +235,8 @@ impl Check for C16 {
         if v.spec.preamble.is_some() != sc.net.cfg.proxy.is_some() {
             return RunReport::default();
         }
-        if sc.net.clients[..n - 1].iter().any(|c| c.peer.split(':').next() == v.peer.split(':').next()) {
+        // without PROXY protocol the victim needs a peer address of its own (with it, the announced source counts)
+        if sc.net.cfg.proxy.is_none() && sc.net.clients[..n - 1].iter().any(|c| c.peer.split(':').next() == v.peer.split(':').next()) {
             return RunReport::default();
         }
         if let Some(p) = &v.spec.preamble {
